@@ -4,4 +4,580 @@ import DswModel.Lemmas.DeBruijn
 /-! Helper lemmas for the accessor / latter map / adjacency matrix converters (C14). -/
 namespace Dsw
 
+/-! ## rows of a de Bruijn sub-table -/
+
+theorem WFdB.rowOK {k : Nat} {a : Acc} (h : WFdB k a) {v : Nat} (hv : v < 4 ^ k) :
+    RowOK k v (a.getD v #[]) := ((wfdb_iff_rowOK k a).1 h).2 v hv
+
+theorem Acc.mem_live (a : Acc) (v : Int) (j : Nat) : j ∈ a.live v ↔ j < 4 ∧ 0 ≤ a.ent v j := by
+  simp [Acc.live]
+
+/-- a legal entry is non-negative exactly when it is the successor. -/
+theorem WFdB.ent_nonneg_iff {k : Nat} {a : Acc} (h : WFdB k a) {v j : Nat} (hv : v < 4 ^ k)
+    (hj : j < 4) : 0 ≤ a.ent (v : Int) j ↔ a.ent (v : Int) j = (((v * 4 + j) % 4 ^ k : Nat) : Int) := by
+  rcases (h.2 v hv).2 j hj with h1 | h1
+  · rw [h1]; constructor
+    · intro h; omega
+    · intro h; omega
+  · rw [h1]; constructor
+    · intro _; rfl
+    · intro _; omega
+
+theorem WFdB.ent_neg {k : Nat} {a : Acc} (h : WFdB k a) {v j : Nat} (hv : v < 4 ^ k)
+    (hj : j < 4) (hn : ¬ 0 ≤ a.ent (v : Int) j) : a.ent (v : Int) j = -1 := by
+  rcases (h.2 v hv).2 j hj with h1 | h1
+  · exact h1
+  · rw [h1] at hn; omega
+
+/-- rows outside the table have no live column. -/
+theorem Acc.live_oob (a : Acc) (v : Nat) (hv : a.size ≤ v) : a.live (v : Int) = [] := by
+  unfold Acc.live
+  rw [List.filter_eq_nil_iff]
+  intro j _
+  rw [Acc.ent_natCast]
+  have : a.getD v #[] = #[] := by simp [Array.getD, Nat.not_lt.2 hv]
+  rw [this]
+  simp
+
+theorem Acc.liveEntries_oob (a : Acc) (v : Nat) (hv : a.size ≤ v) : a.liveEntries (v : Int) = [] := by
+  unfold Acc.liveEntries; rw [Acc.live_oob a v hv]; rfl
+
+/-- the live successors of a vertex. -/
+theorem WFdB.liveEntries_eq {k : Nat} {a : Acc} (h : WFdB k a) {v : Nat} (hv : v < 4 ^ k) :
+    a.liveEntries (v : Int) = (a.live (v : Int)).map fun j => (v * 4 + j) % 4 ^ k := by
+  unfold Acc.liveEntries
+  apply List.map_congr_left
+  intro j hj
+  rw [Acc.mem_live] at hj
+  rw [(h.ent_nonneg_iff hv hj.1).1 hj.2]
+  rfl
+
+theorem Acc.mem_liveEntries (a : Acc) (v : Int) (w : Nat) :
+    w ∈ a.liveEntries v ↔ ∃ j, j < 4 ∧ a.ent v j = (w : Int) := by
+  unfold Acc.liveEntries
+  simp only [List.mem_map, Acc.mem_live]
+  constructor
+  · rintro ⟨j, ⟨hj, h0⟩, rfl⟩
+    exact ⟨j, hj, by omega⟩
+  · rintro ⟨j, hj, he⟩
+    exact ⟨j, ⟨hj, by omega⟩, by omega⟩
+
+theorem WFdB.liveEntries_sub {k : Nat} {a : Acc} (h : WFdB k a) {v : Nat} (hv : v < 4 ^ k) (w : Nat)
+    (hw : w ∈ a.liveEntries (v : Int)) : w ∈ obtainLatters k v := by
+  rw [h.liveEntries_eq hv, List.mem_map] at hw
+  obtain ⟨j, hj, rfl⟩ := hw
+  exact (mem_obtainLatters k v _).2 ⟨j, ((Acc.mem_live _ _ _).1 hj).1, rfl⟩
+
+/-! ## `obtain_vertices` -/
+
+theorem rowOK_any_iff {k v : Nat} {r : Array Int} (hr : RowOK k v r) :
+    r.any (fun e => e + 1 != 0) = true ↔ ∃ j, j < 4 ∧ 0 ≤ r.getD j (-1) := by
+  rw [Array.any_eq_true]
+  constructor
+  · rintro ⟨j, hj, he⟩
+    rw [hr.1] at hj
+    refine ⟨j, hj, ?_⟩
+    have h1 : r.getD j (-1) = r[j] := by simp [Array.getD, hr.1, hj]
+    rcases hr.2 j hj with h2 | h2
+    · rw [h1] at h2; rw [h2] at he; simp at he
+    · rw [h2]; omega
+  · rintro ⟨j, hj, he⟩
+    have hj' : j < r.size := by rw [hr.1]; exact hj
+    refine ⟨j, hj', ?_⟩
+    have h1 : r.getD j (-1) = r[j] := by simp [Array.getD, hj']
+    rw [h1] at he
+    simp only [bne_iff_ne, ne_eq]
+    omega
+
+theorem WFdB.hasArcs_iff {k : Nat} {a : Acc} (h : WFdB k a) {v : Nat} (hv : v < 4 ^ k) :
+    (a.getD v #[]).any (fun e => e + 1 != 0) = decide (a.live (v : Int) ≠ []) := by
+  rw [Bool.eq_iff_iff, rowOK_any_iff (h.rowOK hv), decide_eq_true_iff]
+  constructor
+  · rintro ⟨j, hj, he⟩ hnil
+    have : j ∈ a.live (v : Int) := (Acc.mem_live _ _ _).2 ⟨hj, by rw [Acc.ent_natCast]; exact he⟩
+    rw [hnil] at this; cases this
+  · intro hne
+    obtain ⟨j, hj⟩ := List.exists_mem_of_ne_nil _ hne
+    rw [Acc.mem_live, Acc.ent_natCast] at hj
+    exact ⟨j, hj⟩
+
+theorem WFdB.obtainVertices_eq {k : Nat} {a : Acc} (h : WFdB k a) :
+    obtainVertices a = (List.range (4 ^ k)).filter (fun (v : Nat) => decide (a.live (v : Int) ≠ [])) := by
+  unfold obtainVertices
+  rw [h.1]
+  apply List.filter_congr
+  intro v hv
+  exact h.hasArcs_iff (List.mem_range.1 hv)
+
+theorem WFdB.mem_obtainVertices {k : Nat} {a : Acc} (h : WFdB k a) (v : Nat) :
+    v ∈ obtainVertices a ↔ v < 4 ^ k ∧ a.live (v : Int) ≠ [] := by
+  rw [h.obtainVertices_eq]; simp
+
+theorem flatMap_congr_cv3 {α β} (l : List α) (f g : α → List β) (h : ∀ x ∈ l, f x = g x) :
+    l.flatMap f = l.flatMap g := by
+  induction l with
+  | nil => rfl
+  | cons x xs ih =>
+    rw [List.flatMap_cons, List.flatMap_cons, h x (by simp), ih (fun y hy => h y (by simp [hy]))]
+
+/-! ## latter map look-up -/
+
+theorem find?_graph_cv3 {β} (l : List Nat) (f : Nat → β) (v : Nat) :
+    ((l.map fun u => (u, f u)).find? (fun p => p.1 == v)).map (·.2) =
+      if v ∈ l then some (f v) else none := by
+  induction l with
+  | nil => simp
+  | cons x xs ih =>
+    simp only [List.map_cons, List.find?_cons]
+    by_cases hx : x = v
+    · subst hx; simp
+    · have : (x == v) = false := by simpa using hx
+      simp only [this, ih, List.mem_cons]
+      have : (v = x ∨ v ∈ xs) ↔ v ∈ xs := by
+        constructor
+        · rintro (h | h)
+          · exact absurd h.symm hx
+          · exact h
+        · exact Or.inr
+      simp only [this]
+
+theorem WFdB.latterMap_get? {k : Nat} {a : Acc} (h : WFdB k a) (v : Nat) :
+    ((accessorToLatterMap a).get? v).getD [] = a.liveEntries (v : Int) := by
+  unfold LMap.get? accessorToLatterMap
+  rw [find?_graph_cv3 (obtainVertices a) (fun u : Nat => a.liveEntries (u : Int)) v]
+  by_cases hv : v ∈ obtainVertices a
+  · rw [if_pos hv]; rfl
+  · rw [if_neg hv]
+    rw [h.mem_obtainVertices] at hv
+    by_cases hlt : v < 4 ^ k
+    · have : a.live (v : Int) = [] := by
+        apply Classical.byContradiction; intro hne; exact hv ⟨hlt, hne⟩
+      simp [Acc.liveEntries, this]
+    · rw [Acc.liveEntries_oob a v (by rw [h.1]; omega)]; rfl
+
+/-! ## leaf search -/
+
+theorem leafMap_eq_leafAcc {k : Nat} {a : Acc} (h : WFdB k a) (d : Nat) (branch : List Nat) :
+    leafMap (accessorToLatterMap a) d branch = leafAcc a d branch := by
+  induction d generalizing branch with
+  | zero => rfl
+  | succ d ih =>
+    simp only [leafMap, leafAcc]
+    rw [ih]
+    congr 1
+    apply flatMap_congr_cv3
+    intro v _
+    exact h.latterMap_get? v
+
+/-- breadth-first levels = end points of all walks, for any function satisfying the walk
+recursion. -/
+theorem leafAcc_eq_flatMap (a : Acc) (W : Nat → Nat → List Nat) (h0 : ∀ v, W 0 v = [v])
+    (hs : ∀ d v, W (d + 1) v = (a.liveEntries (v : Int)).flatMap (W d)) (d : Nat) (branch : List Nat) :
+    leafAcc a d branch = branch.flatMap (W d) := by
+  induction d generalizing branch with
+  | zero =>
+    simp only [leafAcc]
+    induction branch with
+    | nil => rfl
+    | cons x xs ih => simp [List.flatMap_cons, h0] at ih ⊢; exact ih
+  | succ d ih =>
+    simp only [leafAcc]
+    rw [ih, List.flatMap_assoc]
+    apply flatMap_congr_cv3
+    intro v _
+    exact (hs d v).symm
+
+/-! ## extensionality for accessors -/
+
+theorem getD_eq_getElem_cv3 {α} (r : Array α) (j : Nat) (d : α) (hj : j < r.size) :
+    r.getD j d = r[j] := by simp [Array.getD, hj]
+
+/-- two order-`k` tables with the same entries are equal. -/
+theorem wfdb_ext {k : Nat} {a b : Acc} (ha : WFdB k a) (hb : WFdB k b)
+    (h : ∀ v j : Nat, v < 4 ^ k → j < 4 → a.ent (v : Int) j = b.ent (v : Int) j) : a = b := by
+  apply Array.ext
+  · rw [ha.1, hb.1]
+  · intro v hva hvb
+    have hv : v < 4 ^ k := by rw [← ha.1]; exact hva
+    have e1 : a.getD v #[] = a[v] := getD_eq_getElem_cv3 a v #[] hva
+    have e2 : b.getD v #[] = b[v] := getD_eq_getElem_cv3 b v #[] hvb
+    have sa := (ha.2 v hv).1
+    have sb := (hb.2 v hv).1
+    rw [e1] at sa; rw [e2] at sb
+    apply Array.ext
+    · rw [sa, sb]
+    · intro j hja hjb
+      have hj : j < 4 := by rw [← sa]; exact hja
+      have := h v j hv hj
+      rw [Acc.ent_natCast, Acc.ent_natCast, e1, e2, getD_eq_getElem_cv3 _ _ _ hja,
+        getD_eq_getElem_cv3 _ _ _ hjb] at this
+      exact this
+
+/-! ## the write loop of `latter_map_to_accessor` -/
+
+/-- writing the cells `(v, w % 4) := w` of a list of arcs `(v, w)`. -/
+def writeArcs (cells : List (Nat × Nat)) (acc : Acc) : Acc :=
+  cells.foldl (fun acc c => acc.setEnt c.1 (c.2 % 4) c.2) acc
+
+theorem latterMap_fold_eq (lm : LMap) (acc : Acc) :
+    lm.foldl (fun acc p => p.2.foldl (fun acc w => acc.setEnt p.1 (w % 4) w) acc) acc =
+      writeArcs (lm.flatMap fun p => p.2.map fun w => (p.1, w)) acc := by
+  unfold writeArcs
+  rw [List.foldl_flatMap]
+  congr 1
+  funext acc p
+  rw [List.foldl_map]
+
+/-- entry `(u, i)` after the write loop, when every write agrees with the target table `T`. -/
+theorem writeArcs_ent (k : Nat) (T : Nat → Nat → Int) (cells : List (Nat × Nat))
+    (hc : ∀ c ∈ cells, c.1 < 4 ^ k ∧ c.2 ∈ obtainLatters k c.1 ∧ T c.1 (c.2 % 4) = (c.2 : Int))
+    (acc : Acc) (hacc : WFdB k acc) (u i : Nat) :
+    (writeArcs cells acc).ent (u : Int) i =
+      if ∃ c ∈ cells, c.1 = u ∧ c.2 % 4 = i then T u i else acc.ent (u : Int) i := by
+  induction cells generalizing acc with
+  | nil => simp [writeArcs]
+  | cons c cs ih =>
+    have hc0 := hc c (by simp)
+    have hw : WFdB k (acc.setEnt c.1 (c.2 % 4) c.2) := by
+      apply wfdb_setEnt k _ _ _ _ hacc
+      right
+      rw [latter_column k c.1 c.2 hc0.2.1]
+    have := ih (fun c' hc' => hc c' (by simp [hc'])) _ hw
+    unfold writeArcs at this ⊢
+    rw [List.foldl_cons, this]
+    by_cases hcs : ∃ c' ∈ cs, c'.1 = u ∧ c'.2 % 4 = i
+    · rw [if_pos hcs, if_pos]
+      obtain ⟨c', h1, h2⟩ := hcs
+      exact ⟨c', by simp [h1], h2⟩
+    · rw [if_neg hcs]
+      by_cases hm : c.1 = u ∧ c.2 % 4 = i
+      · rw [if_pos ⟨c, by simp, hm⟩]
+        obtain ⟨rfl, rfl⟩ := hm
+        rw [Acc.ent_setEnt_self]
+        · exact hc0.2.2.symm
+        · rw [(hacc.2 c.1 hc0.1).1]; omega
+      · rw [if_neg]
+        · apply Acc.ent_setEnt_ne
+          by_cases h1 : u = c.1
+          · right; intro h2; exact hm ⟨h1.symm, h2.symm⟩
+          · left; exact h1
+        · rintro ⟨c', hc', h2⟩
+          rcases List.mem_cons.1 hc' with rfl | hc'
+          · exact hm h2
+          · exact hcs ⟨c', hc', h2⟩
+
+theorem replicate_ent_cv3 (k u i : Nat) :
+    Acc.ent (Array.replicate (4 ^ k) (Array.replicate 4 (-1))) (u : Int) i = -1 := by
+  rw [Acc.ent_natCast]
+  by_cases hu : u < 4 ^ k
+  · by_cases hi : i < 4
+    · simp [Array.getD, hu, hi]
+    · simp [Array.getD, hu, hi]
+  · simp [Array.getD, hu]
+
+/-- column of the `j`-th successor. -/
+theorem shift_column_cv3 (k u j : Nat) (hk : 1 ≤ k) (hj : j < 4) : ((u * 4 + j) % 4 ^ k) % 4 = j := by
+  obtain ⟨k', rfl⟩ : ∃ k', k = k' + 1 := ⟨k - 1, by omega⟩
+  rw [four_pow_succ, shift_mod _ _ _ hj]
+  omega
+
+theorem latterMap_roundtrip (k : Nat) (a : Acc) (hk : 1 ≤ k) (h : WFdB k a) :
+    latterMapToAccessor (accessorToLatterMap a) k none = .ok a := by
+  unfold latterMapToAccessor
+  simp only [bind, Except.bind, pure, Except.pure]
+  have hany : (accessorToLatterMap a).any (fun p => decide (p.1 ≥ 4 ^ k)) = false := by
+    rw [List.any_eq_false]
+    intro p hp
+    unfold accessorToLatterMap at hp
+    rw [List.mem_map] at hp
+    obtain ⟨v, hv, rfl⟩ := hp
+    have := ((h.mem_obtainVertices v).1 hv).1
+    simp only [decide_eq_true_eq]; omega
+  rw [hany]
+  simp only [Bool.false_eq_true, if_false]
+  congr 1
+  rw [latterMap_fold_eq]
+  have hcells : ∀ c ∈ (accessorToLatterMap a).flatMap (fun p => p.2.map fun w => (p.1, w)),
+      c.1 < 4 ^ k ∧ c.2 ∈ a.liveEntries (c.1 : Int) := by
+    intro c hc
+    simp only [accessorToLatterMap, List.mem_flatMap, List.mem_map] at hc
+    obtain ⟨p, ⟨v, hv, rfl⟩, w, hw, rfl⟩ := hc
+    exact ⟨((h.mem_obtainVertices v).1 hv).1, hw⟩
+  have hc : ∀ c ∈ (accessorToLatterMap a).flatMap (fun p => p.2.map fun w => (p.1, w)),
+      c.1 < 4 ^ k ∧ c.2 ∈ obtainLatters k c.1 ∧ a.ent (c.1 : Int) (c.2 % 4) = (c.2 : Int) := by
+    intro c hcm
+    obtain ⟨h1, h2⟩ := hcells c hcm
+    refine ⟨h1, h.liveEntries_sub h1 _ h2, ?_⟩
+    rw [h.liveEntries_eq h1, List.mem_map] at h2
+    obtain ⟨j, hj, he⟩ := h2
+    rw [Acc.mem_live] at hj
+    rw [← he, shift_column_cv3 k _ _ hk hj.1]
+    exact (h.ent_nonneg_iff h1 hj.1).1 hj.2
+  have hw := wfdb_latterMap_fold k (accessorToLatterMap a)
+    (fun p hp w hw => by
+      unfold accessorToLatterMap at hp
+      rw [List.mem_map] at hp
+      obtain ⟨v, hv, rfl⟩ := hp
+      exact h.liveEntries_sub ((h.mem_obtainVertices v).1 hv).1 w hw) _ (wfdb_replicate k)
+  rw [latterMap_fold_eq] at hw
+  apply wfdb_ext hw h
+  intro u i hu hi
+  rw [writeArcs_ent k (fun u i => a.ent (u : Int) i) _ hc _ (wfdb_replicate k)]
+  split
+  · rfl
+  · rename_i hno
+    rw [replicate_ent_cv3]
+    by_cases h0 : 0 ≤ a.ent (u : Int) i
+    · exfalso
+      apply hno
+      refine ⟨(u, (u * 4 + i) % 4 ^ k), ?_, rfl, shift_column_cv3 k u i hk hi⟩
+      simp only [accessorToLatterMap, List.mem_flatMap, List.mem_map]
+      have hi' : i ∈ a.live (u : Int) := (Acc.mem_live _ _ _).2 ⟨hi, h0⟩
+      refine ⟨(u, a.liveEntries (u : Int)), ⟨u, ?_, rfl⟩, (u * 4 + i) % 4 ^ k, ?_, rfl⟩
+      · rw [h.mem_obtainVertices]
+        exact ⟨hu, fun hnil => by rw [hnil] at hi'; cases hi'⟩
+      · rw [h.liveEntries_eq hu, List.mem_map]
+        exact ⟨i, hi', rfl⟩
+    · exact (h.ent_neg hu hi h0).symm
+
+/-! ## accessor → adjacency matrix -/
+
+/-- one row of the adjacency matrix. -/
+def markRow (ws : List Nat) (r : Array Nat) : Array Nat :=
+  ws.foldl (fun row w => row.setIfInBounds w 1) r
+
+theorem markRow_size (ws : List Nat) (r : Array Nat) : (markRow ws r).size = r.size := by
+  unfold markRow
+  induction ws generalizing r with
+  | nil => rfl
+  | cons x xs ih => rw [List.foldl_cons, ih]; simp
+
+theorem markRow_getD (ws : List Nat) (r : Array Nat) (w : Nat) :
+    (markRow ws r).getD w 0 = if w ∈ ws ∧ w < r.size then 1 else r.getD w 0 := by
+  unfold markRow
+  induction ws generalizing r with
+  | nil => simp
+  | cons x xs ih =>
+    rw [List.foldl_cons, ih]
+    have hs : (r.setIfInBounds x 1).size = r.size := by simp
+    rw [hs]
+    by_cases h1 : w ∈ xs ∧ w < r.size
+    · rw [if_pos h1, if_pos ⟨by simp [h1.1], h1.2⟩]
+    · rw [if_neg h1]
+      by_cases hx : x = w
+      · subst hx
+        by_cases hlt : x < r.size
+        · rw [getD_setIfInBounds_self _ _ _ _ hlt, if_pos ⟨by simp, hlt⟩]
+        · rw [getD_setIfInBounds_oob _ _ _ _ _ (by omega), if_neg (fun h => hlt h.2)]
+      · rw [getD_setIfInBounds_ne _ _ _ _ _ hx, if_neg]
+        rintro ⟨h2, h3⟩
+        rcases List.mem_cons.1 h2 with h2 | h2
+        · exact hx h2.symm
+        · exact h1 ⟨h2, h3⟩
+
+/-- the matrix computed by `accessor_to_adjacency_matrix`. -/
+def adjRows (a : Acc) : Matrix :=
+  (Array.range a.size).map fun (v : Nat) =>
+    markRow (a.liveEntries (v : Int)) (Array.replicate a.size 0)
+
+theorem adjRows_size (a : Acc) : (adjRows a).size = a.size := by simp [adjRows]
+
+theorem adjRows_row_size (a : Acc) (v : Nat) (hv : v < a.size) :
+    ((adjRows a).getD v #[]).size = a.size := by
+  unfold adjRows
+  rw [getD_range_map _ _ _ _ hv, markRow_size]; simp
+
+theorem adjRows_getD (a : Acc) (v w : Nat) (hv : v < a.size) :
+    ((adjRows a).getD v #[]).getD w 0 =
+      if w ∈ a.liveEntries (v : Int) ∧ w < a.size then 1 else 0 := by
+  unfold adjRows
+  rw [getD_range_map _ _ _ _ hv, markRow_getD]
+  simp only [Array.size_replicate]
+  split
+  · rfl
+  · by_cases hw : w < a.size
+    · simp [Array.getD, hw]
+    · simp [Array.getD, hw]
+
+theorem adjMatrix_cases (a : Acc) :
+    accessorToAdjacencyMatrix a = .error .valueError ∨ accessorToAdjacencyMatrix a = .ok (adjRows a) := by
+  unfold accessorToAdjacencyMatrix
+  split
+  · exact Or.inl rfl
+  · exact Or.inr rfl
+
+theorem adjMatrix_of_ok (a : Acc) (mx : Matrix) (h : accessorToAdjacencyMatrix a = .ok mx) :
+    mx = adjRows a := by
+  rcases adjMatrix_cases a with h1 | h1
+  · rw [h1] at h; cases h
+  · rw [h1] at h; cases h; rfl
+
+theorem WFdB.adjMatrix_ok {k : Nat} {a : Acc} (h : WFdB k a) :
+    accessorToAdjacencyMatrix a = .ok (adjRows a) := by
+  unfold accessorToAdjacencyMatrix
+  rw [if_neg]
+  · rfl
+  · intro hany
+    rw [Array.any_eq_true] at hany
+    obtain ⟨v, hv, hp⟩ := hany
+    have hv' : v < 4 ^ k := by rw [← h.1]; exact hv
+    have hr := h.rowOK hv'
+    rw [getD_eq_getElem_cv3 a v #[] hv] at hr
+    rw [Bool.or_eq_true] at hp
+    rcases hp with hp | hp
+    · rw [hr.1] at hp; simp at hp
+    · rw [Array.any_eq_true] at hp
+      obtain ⟨j, hj, he⟩ := hp
+      have hj4 : j < 4 := by rw [← hr.1]; exact hj
+      have := hr.2 j hj4
+      rw [getD_eq_getElem_cv3 _ j _ hj] at this
+      have hlt : (v * 4 + j) % 4 ^ k < 4 ^ k := Nat.mod_lt _ (four_pow_pos k)
+      simp only [Bool.or_eq_true, decide_eq_true_eq] at he
+      rw [h.1] at he
+      omega
+
+/-- the matrix has a 1 exactly at the arcs. -/
+theorem adjRows_one_iff (a : Acc) (u w : Nat) (hu : u < a.size) (hw : w < a.size) :
+    ((adjRows a).getD u #[]).getD w 0 = 1 ↔ ∃ j, j < 4 ∧ a.ent (u : Int) j = (w : Int) := by
+  rw [adjRows_getD a u w hu, ← Acc.mem_liveEntries]
+  constructor
+  · intro h
+    split at h
+    · rename_i h1; exact h1.1
+    · cases h
+  · intro h
+    rw [if_pos ⟨h, hw⟩]
+
+theorem adjRows_bit (a : Acc) (u w : Nat) (hu : u < a.size) :
+    ((adjRows a).getD u #[]).getD w 0 = 0 ∨ ((adjRows a).getD u #[]).getD w 0 = 1 := by
+  rw [adjRows_getD a u w hu]
+  split
+  · exact Or.inr rfl
+  · exact Or.inl rfl
+
+/-! ## adjacency matrix → accessor -/
+
+/-- the columns holding a 1 in row `v`. -/
+def mxNext (mx : Matrix) (v : Nat) : List Nat :=
+  (List.range (mx.getD v #[]).size).filter fun w => (mx.getD v #[]).getD w 0 == 1
+
+def mxLegal (k : Nat) (mx : Matrix) (v : Nat) : Bool :=
+  (mxNext mx v).all fun w => (obtainLatters k v).contains w
+
+def mxRow (k : Nat) (mx : Matrix) (v : Nat) : Array Int :=
+  ((obtainLatters k v).map fun w => if (mxNext mx v).contains w then Int.ofNat w else -1).toArray
+
+theorem adjacencyMatrixToAccessor_eq (mx : Matrix) :
+    adjacencyMatrixToAccessor mx =
+      (List.range mx.size).foldlM (fun (acc : Acc) v =>
+        if mxLegal (log4 mx.size) mx v then Except.ok (acc.push (mxRow (log4 mx.size) mx v))
+        else Except.error PyErr.valueError) #[] := rfl
+
+theorem mem_mxNext (mx : Matrix) (v w : Nat) :
+    w ∈ mxNext mx v ↔ w < (mx.getD v #[]).size ∧ (mx.getD v #[]).getD w 0 = 1 := by
+  simp [mxNext]
+
+theorem foldlM_push_ok_cv3 {ε α β} (c : α → Bool) (g : α → β) (e : ε) (l : List α) (acc : Array β)
+    (h : ∀ x ∈ l, c x = true) :
+    l.foldlM (fun acc v => if c v then Except.ok (acc.push (g v)) else Except.error e) acc
+      = .ok (acc ++ (l.map g).toArray) := by
+  induction l generalizing acc with
+  | nil => simp [pure, Except.pure]
+  | cons x xs ih =>
+    simp only [List.foldlM_cons, bind, Except.bind, h x (by simp), if_true]
+    rw [ih _ (fun y hy => h y (by simp [hy]))]
+    simp
+
+theorem foldlM_push_error_cv3 {ε α β} (c : α → Bool) (g : α → β) (e : ε) (l : List α) (acc : Array β)
+    (h : ∃ x ∈ l, c x = false) :
+    l.foldlM (fun acc v => if c v then Except.ok (acc.push (g v)) else Except.error e) acc
+      = .error e := by
+  induction l generalizing acc with
+  | nil => obtain ⟨x, hx, _⟩ := h; cases hx
+  | cons x xs ih =>
+    simp only [List.foldlM_cons, bind, Except.bind]
+    by_cases hc : c x = true
+    · simp only [hc, if_true]
+      apply ih
+      obtain ⟨y, hy, hcy⟩ := h
+      rcases List.mem_cons.1 hy with rfl | hy
+      · rw [hc] at hcy; cases hcy
+      · exact ⟨y, hy, hcy⟩
+    · simp only [hc]
+      rfl
+
+theorem illegal_matrix (k : Nat) (mx : Matrix) (u w : Nat) (hs : mx.size = 4 ^ k)
+    (hu : u < 4 ^ k) (hw : w < (mx.getD u #[]).size) (h1 : (mx.getD u #[]).getD w 0 = 1)
+    (hnot : w ∉ obtainLatters k u) :
+    adjacencyMatrixToAccessor mx = .error .valueError := by
+  rw [adjacencyMatrixToAccessor_eq, hs, log4_four_pow]
+  apply foldlM_push_error_cv3
+  refine ⟨u, List.mem_range.2 hu, ?_⟩
+  unfold mxLegal
+  rw [Bool.eq_false_iff]
+  intro hall
+  rw [List.all_eq_true] at hall
+  have := hall w ((mem_mxNext mx u w).2 ⟨hw, h1⟩)
+  rw [List.contains_iff_mem] at this
+  exact hnot this
+
+theorem WFdB.mem_mxNext {k : Nat} {a : Acc} (h : WFdB k a) {v : Nat} (hv : v < 4 ^ k) (w : Nat) :
+    w ∈ mxNext (adjRows a) v ↔ w ∈ a.liveEntries (v : Int) := by
+  have hv' : v < a.size := by rw [h.1]; exact hv
+  rw [Dsw.mem_mxNext, adjRows_row_size a v hv', adjRows_getD a v w hv']
+  constructor
+  · rintro ⟨_, h2⟩
+    split at h2
+    · rename_i h3; exact h3.1
+    · cases h2
+  · intro hw
+    have hlt : w < a.size := by
+      have := (mem_obtainLatters k v w).1 (h.liveEntries_sub hv w hw)
+      obtain ⟨j, _, rfl⟩ := this
+      rw [h.1]; exact Nat.mod_lt _ (four_pow_pos k)
+    exact ⟨hlt, by rw [if_pos ⟨hw, hlt⟩]⟩
+
+theorem matrix_roundtrip (k : Nat) (a : Acc) (hk : 1 ≤ k) (h : WFdB k a) :
+    adjacencyMatrixToAccessor (adjRows a) = .ok a := by
+  have hs : (adjRows a).size = 4 ^ k := by rw [adjRows_size, h.1]
+  have hok : adjacencyMatrixToAccessor (adjRows a) =
+      .ok (#[] ++ ((List.range (4 ^ k)).map (mxRow k (adjRows a))).toArray) := by
+    rw [adjacencyMatrixToAccessor_eq, hs, log4_four_pow]
+    apply foldlM_push_ok_cv3
+    intro v hv
+    rw [List.mem_range] at hv
+    unfold mxLegal
+    rw [List.all_eq_true]
+    intro w hw
+    rw [List.contains_iff_mem]
+    exact h.liveEntries_sub hv w ((h.mem_mxNext hv w).1 hw)
+  rw [hok]
+  congr 1
+  have hb := wfdb_adjacencyMatrixToAccessor k _ _ hs hok
+  apply wfdb_ext hb h
+  intro v j hv hj
+  rw [Acc.ent_natCast]
+  have : ((#[] : Acc) ++ ((List.range (4 ^ k)).map (mxRow k (adjRows a))).toArray).getD v #[] =
+      mxRow k (adjRows a) v := by simp [Array.getD, hv]
+  rw [this]
+  unfold mxRow
+  have hj' : j < (obtainLatters k v).length := by rw [obtainLatters_length]; exact hj
+  rw [getD_map_toArray _ _ _ _ hj', obtainLatters_getElem]
+  by_cases h0 : 0 ≤ a.ent (v : Int) j
+  · have he := (h.ent_nonneg_iff hv hj).1 h0
+    rw [if_pos, he]; rfl
+    rw [List.contains_iff_mem, h.mem_mxNext hv, Acc.mem_liveEntries]
+    exact ⟨j, hj, he⟩
+  · rw [h.ent_neg hv hj h0, if_neg]
+    rw [List.contains_iff_mem, h.mem_mxNext hv, Acc.mem_liveEntries]
+    rintro ⟨j', hj', he'⟩
+    have h0' : 0 ≤ a.ent (v : Int) j' := by omega
+    have he2 := (h.ent_nonneg_iff hv hj').1 h0'
+    rw [he2] at he'
+    have heq : (v * 4 + j') % 4 ^ k = (v * 4 + j) % 4 ^ k := by omega
+    have : j' = j := by
+      rw [← shift_column_cv3 k v j' hk hj', ← shift_column_cv3 k v j hk hj, heq]
+    subst this
+    exact h0 h0'
+
 end Dsw
